@@ -115,7 +115,11 @@ class DBConnection:
                 'URIs cannot express passwords without usernames')
         uri = '%s://%s' % (self.dbName, auth)
         if self.host:
-            uri += self.host
+            host = self.host
+            if ':' in host and not host.startswith('['):
+                # IPv6 address literal: RFC 3986 requires brackets
+                host = '[%s]' % host
+            uri += host
             if self.port:
                 uri += ':%d' % self.port
         uri += '/'
